@@ -980,11 +980,15 @@ def _shrink_setup(ci, omi):
     return m, etas, pd.Series(pe, name="estimates"), omega
 
 
-def run_shrink_case(ci, rows, omi, sd):
+def run_shrink_case(ci, rows, omi, sd, order="model"):
     import pandas as pd
     from pharmpy.modeling import calculate_eta_shrinkage
 
     m, etas, pe, omega = _shrink_setup(ci, omi)
+    if order == "reversed":  # estimates are looked up by label: their order in the Series carries no meaning
+        pe = pe[::-1]
+    elif order == "sorted":
+        pe = pe.sort_index()
     rows = [tuple(r) for r in rows]
     ie = pd.DataFrame([list(r) for r in rows], columns=etas, index=pd.Index(range(1, len(rows) + 1), name="ID"))
     try:
@@ -1174,6 +1178,7 @@ def stat_shards(tier):
         out.append(("shrink", 0, (2, 3)))
         out.append(("shrink", 9, (2,)))
         out.append(("shrink", 5, (2,)))
+        out.append(("shrink", 6, (2,)))  # three etas whose omega names are not in alphabetical order
     else:
         for n, nch in ((3, 4), (4, 16), (5, 32), (6, 80)):
             for i in range(nch):
@@ -1256,9 +1261,12 @@ def _stat_shard(res, shard, tier):
             for rows in row_multisets(netas, n):
                 for omi in range(len(OMEGA_MENU)):
                     for sd in (False, True):
-                        fails, ncmp = run_shrink_case(ci, rows, omi, sd)
-                        _stat_case(res, "shrink", fails, ncmp, {"kind": "shrink", "model": ci, "rows": [list(r) for r in rows], "omi": omi, "sd": sd},
-                                   f"eta table {[list(r) for r in rows]} model m{ci}{list(CORPUS_KEYS[ci])} omegas={OMEGA_MENU[omi]} sd={sd}")
+                        for order in (("model", "reversed", "sorted") if omi == 0 else ("model",)):
+                            fails, ncmp = run_shrink_case(ci, rows, omi, sd, order)
+                            _stat_case(res, "shrink", fails, ncmp, {"kind": "shrink", "model": ci, "rows": [list(r) for r in rows], "omi": omi, "sd": sd,
+                                                                    "order": order},
+                                       f"eta table {[list(r) for r in rows]} model m{ci}{list(CORPUS_KEYS[ci])} omegas={OMEGA_MENU[omi]} sd={sd} "
+                                       f"estimates in {order} order")
     elif kind == "ishrink":
         dm = [0.5, 1.0, 2.5]
         for ci in SHRINK_MODELS:
@@ -1312,7 +1320,7 @@ def _replay_stat(w):
     elif k == "cdd":
         fails, _ = run_cdd_case([tuple(r) for r in w["rows"]], w["cov"], tuple(w["variant"]))
     elif k == "shrink":
-        fails, _ = run_shrink_case(w["model"], [tuple(r) for r in w["rows"]], w["omi"], w["sd"])
+        fails, _ = run_shrink_case(w["model"], [tuple(r) for r in w["rows"]], w["omi"], w["sd"], w.get("order", "model"))
     elif k == "ishrink":
         fails, _ = run_ishrink_case(w["model"], [tuple(r) for r in w["rows"]], w["omi"])
     elif k == "delta":
